@@ -48,6 +48,19 @@ def stores_to(prog, cls_qual, attr):
     return out
 
 
+def store_owners(prog, st):
+    """Known functions responsible for the stores: a store inside a helper the rules do not know is attributed to the known
+    functions that reach it (an uncalled unknown function owns its stores itself)."""
+    from ..helpers import known_owners
+    out = set()
+    for f, _n in st:
+        if prog.is_known(f.qual):
+            out.add(f.qual)
+        else:
+            out |= set(known_owners(prog, f)) or {f.qual}
+    return sorted(out)
+
+
 def external_stores(prog, attr, owner_quals):
     """stores `<expr>.<attr> = ...` anywhere in the package outside the owner classes' methods"""
     out = []
@@ -106,6 +119,15 @@ def run(ctx):
         dec_ok = call_is(hashed, f"{SEC}.decrypt_aes_cbc") and strip(hashed[2][-2]) == ("param", key_p)
         cr = slice_bounds(strip(hashed[2][-1])) if dec_ok else None
         rr = slice_bounds(rx)
+        # with the reply length fixed by a guard (len(data) == L), bounds counted from the end are positions from the start
+        L = next((b[1] for a, b in equality_atoms(facts) if call_is(strip(a), "len") and strip(strip(a)[2][0]) == ("param", data_p) and is_const(b) and isinstance(b[1], int)), None) or \
+            next((a[1] for a, b in equality_atoms(facts) if call_is(strip(b), "len") and strip(strip(b)[2][0]) == ("param", data_p) and is_const(a) and isinstance(a[1], int)), None)
+
+        def fromstart(r):
+            if r is None or L is None:
+                return r
+            return (r[0],) + tuple((L + b if isinstance(b, int) and b < 0 else (None if b == L else b)) for b in r[1:])
+        cr, rr = fromstart(cr), fromstart(rr)
         part = cr is not None and rr is not None and strip(cr[0]) == ("param", data_p) == strip(rr[0]) and cr[1] in (None, 0) and cr[2] is not None \
             and rr[1] == cr[2] and rr[2] is None and cr[2] == 32
         ctx.ob("C06.a", g.qual, dec_ok and part, "proof = sha256(decrypt(key, reply[:32])) compared with reply[32:] (halves partition the reply, configured key)",
@@ -127,7 +149,7 @@ def run(ctx):
     for attr in ("_local_key", "_local_key_expiration"):
         st = stores_to(prog, V3, attr)
         ctx.count("state_stores", len(st))
-        owners = sorted({f.qual for f, _ in st})
+        owners = store_owners(prog, st)
         ok = set(owners) <= {f"{V3}.__init__", pa.qual}
         ctx.ob("C06.b", V3, ok, f"self.{attr} is written only by __init__ and authenticate", func=V3, file=file, construct=f"stores to {attr}",
                detail={"writers": owners}, fail=f"self.{attr} is also written by {sorted(set(owners) - {f'{V3}.__init__', pa.qual})}")
@@ -153,7 +175,12 @@ def run(ctx):
         if k_ok:
             a = strip(kv)[2]
             # the reply handed to _get_local_key comes from read(); the key is the configured key parameter
-            from_read = any(call_is(x, f"{V3}.read") for x in subterms(a[-1]))
+            def ite_leaves(x):
+                x = strip(x)
+                if x[0] == "ite":
+                    return ite_leaves(x[2]) + ite_leaves(x[3])
+                return [x]
+            from_read = all(any(call_is(y, f"{V3}.read") for y in subterms(x)) for x in ite_leaves(a[-1]))
             ctx.ob("C06.b", pa.qual, from_read and strip(a[-2]) == ("param", pa.params[2]), "_get_local_key receives the configured key and the reply just read",
                    func=pa.qual, file=file, construct="_get_local_key(key, response)", detail={"args": [show(x)[:60] for x in a]},
                    fail="_get_local_key is not applied to (configured key, handshake reply)")
@@ -175,7 +202,7 @@ def run(ctx):
     la = ctx.fn(f"{LAN}.authenticate")
     for attr in ("_token", "_key"):
         st = stores_to(prog, LAN, attr)
-        owners = sorted({f.qual for f, _ in st})
+        owners = store_owners(prog, st)
         ctx.ob("C06.b", LAN, set(owners) <= {f"{LAN}.__init__", la.qual}, f"LAN.{attr} is written only by __init__ and authenticate", func=LAN, file=file,
                construct=f"stores to LAN.{attr}", detail={"writers": owners}, fail=f"LAN.{attr} is also written by {sorted(set(owners) - {f'{LAN}.__init__', la.qual})}")
         ext = [x for x in external_stores(prog, attr, {LAN}) if x[0].module.name == "msmart.lan" or True]
@@ -183,15 +210,20 @@ def run(ctx):
         lan_ext = [x for x in ext if isinstance(x[1].value, ast.Attribute) and x[1].value.attr == "_lan"]
         ctx.ob("C06.b", LAN, not lan_ext, f"no code reaches into the LAN object to write {attr}", func=LAN, file=file, construct=f"external stores to LAN.{attr}",
                fail=f"LAN.{attr} is written from outside: {[f.qual for f, _ in lan_ext]}")
-    loop = find_loop(la, lambda c: attr_call(c, "_protocol", "authenticate"))
+    loop = find_loop(la, lambda c: attr_call(c, "_protocol", "authenticate"), prog)
+    loop_owner = getattr(find_loop, "owner", None) or la
     if loop is None:
         ctx.violation("C06.b", la.qual, "LAN.authenticate does not call the protocol's authenticate in its retry loop", file=file, construct="handshake loop")
     else:
+        from ..helpers import contains_call
         idx = None
         for i, stt in enumerate(la.node.body):
-            if any(n is loop for n in ast.walk(stt)):
-                idx = i
+            if any(n is loop for n in ast.walk(stt)) or (loop_owner is not la and contains_call(prog, la, stt, lambda c: attr_call(c, "_protocol", "authenticate"))):
+                idx = i if idx is None else idx
         ctr = counter_names(loop)
+        if loop_owner is not la:
+            # the counter lives in the helper: the caller passes its own budget parameter
+            ctr = [p_ for p_ in la.params if p_ in ("retries",)] or ctr
 
         def classify(c):
             if attr_call(c, "_protocol", "authenticate"):
@@ -224,16 +256,18 @@ def run(ctx):
                    f"R={R}: a successful handshake caches token and key for re-authentication", func=la.qual, file=file, construct=f"credential caching, budget {R}",
                    fail=f"budget {R}: after a successful handshake the credentials are not cached (re-authentication after a reconnect cannot work)")
     # ---------------------------------------------------------------- C06.c only handshake requests are sent
-    writes = [n for n in ast.walk(pa.node) if isinstance(n, ast.Call) and isinstance(n.func, ast.Attribute) and n.func.attr == "write"]
+    from ..helpers import term_lookup, with_helpers
+    tlp = term_lookup(prog, pa)
+    writes = [n for f_ in with_helpers(prog, pa) for n in ast.walk(f_.node) if isinstance(n, ast.Call) and isinstance(n.func, ast.Attribute) and n.func.attr == "write"]
     ctx.count("handshake_writes", len(writes))
     ctx.ob("C06.c", pa.qual, len(writes) == 1, "exactly one transport write in the protocol handshake", func=pa.qual, file=file, construct="write calls",
            fail=f"{len(writes)} write calls in the handshake")
     for w in writes:
-        t0 = ps.ta.terms_at.get(w.args[0]) if w.args else None
+        t0 = tlp(w.args[0]) if w.args else None
         pt = None
         for k in w.keywords:
             if k.arg == "packet_type":
-                pt = ps.ta.terms_at.get(k.value)
+                pt = tlp(k.value)
         hs = pt is not None and pt[0] == "enum" and pt[2] == "HANDSHAKE_REQUEST"
         ctx.ob("C06.c", pa.qual, hs, "the write uses packet_type=HANDSHAKE_REQUEST", func=pa.qual, file=file, node=w,
                fail="the handshake is sent with the default (encrypted data) packet type or another type")
@@ -263,6 +297,8 @@ def run(ctx):
             if x[0] == "call" and x[1][0] == "dyn" and x[1][1][0] == "localfunc" and len(x[2]) == 1 and strip(x[2][0]) == ("param", la.params[1]):
                 continue
             if x == ("param", la.params[1]):
+                continue
+            if call_is(x, "bytes.fromhex") and len(x[2]) == 1 and strip(x[2][0]) == ("param", la.params[1]):
                 continue
             good = False
         ctx.ob("C06.c", la.qual, good and bool(lv), "the token handed to the protocol is the cached or the supplied token (hex -> bytes only)", func=la.qual, file=file, node=c,
